@@ -117,6 +117,7 @@ class Machine(RuleBasedStateMachine):
         fails = self.h.apply(op)
         unknown = runner.triage(PID, self.h.case(), fails, self._stats)
         if unknown:
+            runner.record_violation(self._sink, self.h.case(), unknown)
             raise runner.Violation(self.h.case(), unknown)
 
     @rule(data=st.data())
